@@ -420,3 +420,48 @@ func DialWS(addr string) (*WSConn, error) {
 	}
 	return &WSConn{Conn: c}, nil
 }
+
+// In returns a snapshot of all incoming packets in arrival order.
+func (c *Client) In() []Rec {
+	c.mu.Lock()
+	defer c.mu.Unlock()
+	var out []Rec
+	for _, r := range c.log {
+		if r.Dir == "in" {
+			out = append(out, r)
+		}
+	}
+	return out
+}
+
+// WaitIn waits until more than n packets have arrived; returns false on timeout or EOF without new packets.
+func (c *Client) WaitIn(n int, timeout time.Duration) bool {
+	deadline := time.Now().Add(timeout)
+	for {
+		c.mu.Lock()
+		cnt := 0
+		for _, r := range c.log {
+			if r.Dir == "in" {
+				cnt++
+			}
+		}
+		if cnt > n {
+			c.mu.Unlock()
+			return true
+		}
+		if c.eof {
+			c.mu.Unlock()
+			return false
+		}
+		w := c.wake
+		c.mu.Unlock()
+		rem := time.Until(deadline)
+		if rem <= 0 {
+			return false
+		}
+		select {
+		case <-w:
+		case <-time.After(rem):
+		}
+	}
+}
